@@ -1,4 +1,5 @@
 import Cvise.Proofs.DriverAccept
+import Cvise.Proofs.DriverFmt
 /-! C20: per pass, `failed ≤ executed` in every reachable state: each started candidate is judged a failure at most
     once (the scan removes what it judged, the final wait only sees what is left), for every schedule. -/
 namespace Cvise.D
@@ -279,9 +280,13 @@ theorem fileStep_stat (cfg : Cfg) (W : World C) (dn : Sched) (P : PassI C σ) (f
       · exact statOK_congr rfl rfl h
       · have hy : StatOK (LRes.st' (newLoop cfg W dn P k fuel rid x (x.disk.getD k default))) := by
           unfold newLoop
+          have hr : StatOK (fmtStep W P x (k := k) (x.disk.getD k default)).1 := by
+            unfold StatOK; rw [fmtStep_side]; exact h
           split
-          · exact h
-          · exact fileLoop_stat cfg W dn P k _ fuel rid _ 0 x h
+          · exact hr
+          · split
+            · exact hr
+            · exact fileLoop_stat cfg W dn P k _ fuel rid _ 0 _ hr
         generalize newLoop cfg W dn P k fuel rid x (x.disk.getD k default) = r at hy ⊢
         rcases r with ⟨y, rid'⟩ | ⟨e, y⟩
         · simp only [LRes.st'] at hy
